@@ -257,6 +257,14 @@ func (b *builder) fields(m *ir.Message, dep bool, path string, access []spec.Ste
 				a.Cast = true
 				a.ProtoType += "+cast"
 			}
+			if _, ok := b.cfg.SchemaTypes[fpath]; ok {
+				a.Alt = true
+			} else if _, ok := b.cfg.SchemaTypes[key]; ok {
+				a.Alt = true
+			}
+			if a.Alt {
+				a.ProtoType += "+schema_types"
+			}
 		}
 		a.Class = cardPrefix + a.ProtoType
 		if a.Ptr {
